@@ -845,6 +845,9 @@ def job_sets(thorough):
 PROBE_KEYS = {
     "trim_arity": "F-15b:first-use:_trim_arity:two-threads-first-call-of-1-arg-parse-action:TypeError",
     "each_init": "F-15c:first-use:Each.initExprGroups:OneOrMore(x)&y:required-list-extended-twice:ParseException",
+    # the other thread is let in while the first one has only just begun the one-time grouping: on the unchanged tree it repeats the
+    # grouping for itself and both answer as alone (no finding recorded under this key)
+    "each_init_early": "first-use:Each.initExprGroups:second-thread-enters-during-grouping:<none-recorded>",
 }
 
 
@@ -858,6 +861,10 @@ def probe_specs():
                     "grammar": [["each", [1, 3]], ["oom", 2], ["lit", "x"], ["lit", "y"]],
                     "jobs": [["parse_string", 0, "xy"], ["parse_string", 0, "yx"]],
                     "gates": [{"target": "Each.parseImpl", "line": "self.required += self.multirequired"}]})
+        out.append({"mode": mode, "size": 128, "fresh": True, "probe": "each_init_early", "gname": "probe-each-early",
+                    "grammar": [["each", [1, 3]], ["oom", 2], ["lit", "x"], ["lit", "y"]],
+                    "jobs": [["parse_string", 0, "xy"], ["parse_string", 0, "yx"]],
+                    "gates": [{"target": "Each.parseImpl", "line": "opt1 = [e.expr for e in self.exprs if isinstance(e, Opt)]"}]})
     return out
 
 
@@ -873,7 +880,11 @@ def judge_probe(ctx, sp, serial, run):
             what = "first-use probe %s (%s): thread %d %r returned %r, alone (fresh grammar) it returns %r (schedule %s, stops at %r)" % (
                 sp["probe"], sp["mode"], t, sp["jobs"][t], got, ser, rle(run["schedule"]), sp["gates"][0]["line"])
             if sp["mode"] != "packrat":
-                ctx.violation(PROBE_KEYS[sp["probe"]], what, replay)
+                # the recorded findings are keyed by their symptom: another exception class is another defect
+                known_key = PROBE_KEYS[sp["probe"]]
+                symptom = known_key.rsplit(":", 1)[1]
+                key = known_key if symptom in repr(got) else "first-use:%s:%s|%s" % (sp["probe"], repr(got)[:80], key_tail)
+                ctx.violation(key, what, replay)
                 ctx.stat("probe_failures_" + sp["probe"])
             else:
                 ctx.violation("outcome:%s|thread=%d" % (key_tail, t), what, replay)
